@@ -664,6 +664,9 @@ def der_cases(ctx):
             for o in sorted(a for a in alts if D.oid_valid(a)):
                 cases.append(("der:dec2:OID:" + ("same" if o == s else "shorter" if len(o) < len(s) else "longer-or-different"),
                               "derOIDDec2", valid, (o,)))
+            if len(arcs[-1]) >= 3 and len(arcs) > 2:
+                # the string ends inside the last arc, several digits early (exact-size C string)
+                cases.append(("der:dec2:OID:ends-inside-last-arc", "derOIDDec2", valid, (".".join(arcs[:-1] + [arcs[-1][:1]]),)))
     # random structured strings through the TL level and every typed decoder (tag asked = the tag read)
     for _ in range(ctx.params.get("random", 600)):
         x = random_tlv_like(rng)
@@ -675,6 +678,8 @@ def der_cases(ctx):
             cases.append(("der:random", op, x, op_args(op, tag)))
         for oops in TYPED_OPS.values():
             for op in oops:
+                if tag >= 1 << 24 and op not in ("derTOCTDec",):
+                    continue                 # 4-octet tags: same policy as in the tag-form family
                 if op != "derTSEQDecStart" or (D.tag_valid(tag) and D.tag_constructed(tag) and tag < 0x100):
                     cases.append(("der:random", op, x, op_args(op, tag)))
     return cases
@@ -709,7 +714,7 @@ def crash_prone(cls, op, x, a):
         return True
     if op in WALKERS and b"\x88\xff\xff\xff\xff\xff\xff\xff" in x[:16]:
         return True
-    if op == "derOIDDec2" and cls.endswith(":shorter"):
+    if op == "derOIDDec2" and cls.endswith((":shorter", ":ends-inside-last-arc")):
         return True
     return op == "derTSEQDecStart" and cls == "der:tag:3-octet-number-128"
 
@@ -732,7 +737,7 @@ def unit_der(ctx):
     k, n = ctx.params["chunk"], ctx.params["of"]
     scale = ctx.params.get("scale", 1.0)
     reported = set()
-    budget = {"tsize": 3, "oid2short": 2, "seqtag128": 1}
+    budget = {"tsize": 3, "oid2short": 2, "oid2inside": 1, "seqtag128": 1}
     skipped = 0
     mine = [(i, c) for i, c in enumerate(der_cases(ctx)) if i % n == k]
     mine.sort(key=lambda ic: 0 if crash_prone(*ic[1]) else 1)
@@ -750,6 +755,11 @@ def unit_der(ctx):
                 skipped += 1
                 continue
             budget["oid2short"] -= 1
+        if op == "derOIDDec2" and cls.endswith(":ends-inside-last-arc"):
+            if budget["oid2inside"] <= 0:
+                skipped += 1
+                continue
+            budget["oid2inside"] -= 1
         if op == "derTSEQDecStart" and cls == "der:tag:3-octet-number-128":
             if budget["seqtag128"] <= 0:
                 skipped += 1
@@ -1251,8 +1261,7 @@ def unit_apdu(ctx):
             else:
                 tally[verdict + ":accepted"] = tally.get(verdict + ":accepted", 0) + 1
                 if not ps:
-                    shape = "extended-Lc=0000" if len(body) > 3 and body[:3] == bytes(3) else \
-                        "Le-form-differs-from-Lc-form" if len(body) > 1 and ((body[0] != 0) != (len(body) - 1 - body[0] <= 1 if body[0] else False)) else "other"
+                    shape = "extended-Lc=0000" if len(body) > 3 and body[:3] == bytes(3) else "other"
                     viol("apduCmdDec:accepts-illegal:" + shape, "apduCmdDec accepts a string that rules 1-6 of apdu.h exclude",
                          input=x.hex() if len(x) < 200 else xdesc(x), got={"cdf_len": d["cdf_len"], "rdf_len": d["rdf_len"]})
                 else:
@@ -2003,7 +2012,7 @@ def unit_bpki(ctx):
             r = lib.bpkiCSRUnwrap(o, 0, p, len(y))
             return lib.rd(o, m) if r == 0 else Odd("probe-and-copy-differ")
 
-        for label, pos, y, crashy in [("valid", 0, x, False)] + ordered_variants(x, max(2, nops)):
+        for label, pos, y, crashy in [("valid", 0, x, False)] + ordered_variants(x, 2 if ctx.params.get("scale", 1.0) < 1.0 else 4):
             cls = "bpki:csr:" + label
             if label == "truncated" and crashy:
                 if budget["size-truncation"] <= 0:
@@ -2172,7 +2181,7 @@ def jobs(tier, scale=1.0):
             js.append({"unit": "c08:unit_tl_exhaust", "params": P(lo=lo, hi=lo + 4)})
     nder = (4 if q else 16) if scale >= 1.0 else 2
     for k in range(nder):
-        js.append({"unit": "c08:unit_der", "params": P(chunk=k, of=nder, **({} if q else {"extra": 12, "random": 6000}))})
+        js.append({"unit": "c08:unit_der", "params": P(chunk=k, of=nder, **({} if q else {"extra": 40, "random": 20000}))})
     js.append({"unit": "c08:unit_der_enc", "params": P()})
     js.append({"unit": "c08:unit_apdu", "params": P(part="roundtrip")})
     js.append({"unit": "c08:unit_apdu", "params": P(part="resp")})
@@ -2183,7 +2192,7 @@ def jobs(tier, scale=1.0):
     for k in range(ntext if scale >= 1.0 else 2):
         js.append({"unit": "c08:unit_text", "params": P(part="exhaustive", chunk=k, of=ntext)})
     js.append({"unit": "c08:unit_text", "params": P(part="b64quads")})
-    for k in range(1 if q else 4):
+    for k in range(1 if q else 8):
         js.append({"unit": "c08:unit_text", "params": P(part="random", stream=k)})
     js.append({"unit": "c08:unit_params", "params": P()})
     for i in range(len(CVC_SAMPLES) if scale >= 1.0 else 2):
@@ -2201,7 +2210,7 @@ REQUIRED = ("exhaustive:harness-run", "exhaustive:oracle-crosscheck", "tl:ok-exa
             "der:tag:4-octet", "der:tag:leading-zero-80", "der:tag:unterminated-4", "der:len:SIZE_MAX-1", "der:len:SIZE_MAX-16", "der:len:nonminimal-long8",
             "der:len:0x80", "der:len:0xFF", "der:len:n+1", "der:int:empty", "der:int:negative-80", "der:int:padded-007f", "der:int:9-octet-0100..",
             "der:oid:empty", "der:oid:truncated-arc", "der:oid:arc=2^32", "der:oid:leading-80", "der:bit:nonzero-padding-0781", "der:truncated",
-            "der:dec2:OID:shorter", "der:dec4:shorter", "der:dec4:longer", "enc:TL:valid-tag", "enc:SEQ:lenlen=3", "oid:string:invalid",
+            "der:dec2:OID:longer-or-different", "der:dec4:shorter", "der:dec4:longer", "enc:TL:valid-tag", "enc:SEQ:lenlen=3", "oid:string:invalid",
             "apdu:roundtrip:lcEleE", "apdu:dec:lc=ext:le=2", "apdu:dec:lc=short:le=3", "apdu:dec:truncated", "apdu:resp:rdf",
             "text:len2", "text:b64:quad:pad1", "text:hex:roundtrip:mixed", "text:b64:padbits",
             "params:truncated", "params:mutated:xor80", "params:spliced-length:SIZE_MAX-1",
